@@ -94,6 +94,11 @@ func (calc *Calculator) ComputeFlows() *journal.Processor {
 
 			for _, p := range t.Postings {
 
+				if calc.CommodityFilter != nil && !calc.CommodityFilter(p.Commodity) {
+					// the commodity is not part of the portfolio - neither a value nor a flow.
+					continue
+				}
+
 				if !calc.isPortfolioAccount(p.Account) {
 					// not a portfolio booking - no performance impact.
 					continue
